@@ -301,7 +301,7 @@ FAILURES = [requests.ConnectionError, requests.ConnectTimeout, requests.ReadTime
 
 # response kind -> (transport status or 'failed', body class for the model)
 RESPONSE_KINDS = ['doc', 'doc', 'doc', 'null', 'empty', 'nonjson', 'errobj', '4xx-json', '4xx-html', '5xx', 'edge',
-                  'failed', 'timeout', 'object', 'array']
+                  'failed', 'timeout', 'object', 'array', 'scalar']
 
 
 def documented_body(flag, paginated, rng):
@@ -341,6 +341,8 @@ def plan_response(rng, kind, flag, paginated):
         return 200, b'{"unexpected": 1}', 'object', flag == ''
     if kind == 'array':
         return 200, b'[]', 'other', flag in ('messages',) or (flag == 'list' and not paginated) or flag == ''
+    if kind == 'scalar':     # valid JSON that is neither an object nor null: handed to the caller as it is
+        return 200, rng.choice([b'7', b'true', b'0', b'"error happened"', b'["error"]', b'[1, 2]']), 'other', flag == ''
     if kind == 'failed':
         return 'failed', rng.choice(FAILURES), None, False
     if kind == 'timeout':
